@@ -66,6 +66,10 @@ theorem out_slot_fits (h : HostLayouts) (hh : h.WF) (t : BTy) (ht : t.WF) :
     ∃ l, rotoLayout h t = some l ∧ (rustLayout h t).size ≤ l.size ∧ (rustLayout h t).align ∣ l.align :=
   ⟨_, layout_agrees' h hh t ht, Nat.le_refl _, Nat.dvd_refl _⟩
 
+/-- non-vacuity of `out_slot_fits`: `Verdict<IpAddr, u32>` needs the re-rounding union — 20 bytes -/
+example : rotoLayout .x64 (.verdict (.prim .IpAddr) (.prim (.Int .Unsigned .I32))) = some ⟨20, 4⟩
+    ∧ rustLayout .x64 (.verdict (.prim .IpAddr) (.prim (.Int .Unsigned .I32))) = ⟨20, 4⟩ := by decide
+
 example : payloadOffset ⟨17, 1⟩ + 17 ≤ (reprU8 [[⟨17, 1⟩], [⟨4, 4⟩]]).size ∧ (reprU8 [[⟨17, 1⟩], [⟨4, 4⟩]]).size = 20 := by
   decide
 
@@ -91,6 +95,10 @@ theorem list_get_offset_typed (h : HostLayouts) (hh : h.WF) (t : BTy) (ht : t.WF
   rw [variantFieldOffset_single h hh t ht, (list_get_offset _ (rustLayout_wf h hh t ht).align_pos).2]
 
 example : listGetOffset 8 = 8 ∧ listGetOffset 1 = 1 ∧ listGetOffset 16 = 16 := by decide
+
+/-- non-vacuity of `list_get_offset_typed`: the `u64` of `Option[u64]` sits at 8, a `bool` at 1 -/
+example : variantFieldOffset .x64 [toMTy (.prim (.Int .Unsigned .I64))] 0 = some 8
+    ∧ variantFieldOffset .x64 [toMTy (.prim .Bool)] 0 = some 1 := by decide
 
 /-! ## T3 — variant order and discriminants -/
 
@@ -208,6 +216,13 @@ theorem runtime_call_agree (h : HostLayouts) (hh : h.WF) (s : BSig) (hp : ∀ p 
   refine ⟨_, hroto, ?_⟩
   simp [rustTrampoline, asParamAbis_boundary, callRuntimePrefix, callRuntimeSlots, trampolineSlots, slotTypes]
 
+/-- non-vacuity of `runtime_call_agree`: a registered `fn(Val<Z>, (), f32, String)`: closure, out
+    pointer, pointer for the zero-sized `Z`, nothing for `()`, the float, a pointer for the string -/
+example :
+    let s : BSig := ⟨[.val ⟨0, 1⟩, .unit, .prim (.Float .F32), .prim .String], .unit⟩
+    rotoRuntimeCall Cfg.current .x64 s = .ok ⟨[.I64, .I64, .I64, .F32, .I64], none⟩
+    ∧ rustTrampoline s = .ok ⟨[.I64, .I64, .I64, .F32, .I64], none⟩ := by decide
+
 /-- **T5, script → script `call_site_agree`.**  A call site inside a script passes exactly what
     the callee declares (both filter zero-sized arguments with the same predicate). -/
 theorem call_site_agree (h : HostLayouts) (hh : h.WF) (s : BSig) (hp : ∀ p ∈ s.params, p.WF) (hr : s.ret.WF) :
@@ -223,6 +238,12 @@ theorem call_site_agree (h : HostLayouts) (hh : h.WF) (s : BSig) (hp : ∀ p ∈
   refine ⟨_, _, hroto, ?_⟩
   simp only [rotoCallSite, h2, hk, hret]
   rfl
+
+/-- non-vacuity of `call_site_agree`: an `Option[u8]`-returning callee (hidden return pointer) -/
+example :
+    let s : BSig := ⟨[.prim (.Int .Signed .I16), .val ⟨0, 8⟩], .option (.prim (.Int .Unsigned .I8))⟩
+    rotoCallSite Cfg.current .x64 s = .ok ⟨[.I64, .I64, .I16, .I64], none⟩
+    ∧ rotoSig Cfg.current .x64 s = .ok (⟨[.I64, .I64, .I16, .I64], none⟩, true) := by decide
 
 /-- **Refutation on the pinned tree (T5 was false there).**  With the compiler-side decisions as
     pinned, the signature `fn(Val<Z>, i32) -> i32` with a zero-sized registered `Z` is declared by
